@@ -253,6 +253,37 @@ FAMILIES = ['closed', 'closed_fin', 'pc', 'capitalists', 'federated', 'multi_cur
             'multi_currency_supply', 'gold']
 
 
+def insert_queries(ops, rng, m, n=None):
+    """Read-only queries (and caller-side edits of the fresh lists they return) at seeded points of the construction
+    history: they declare nothing, so the reference model ignores them and every oracle stays as it is."""
+    for _ in range(n or rng.randint(1, 3)):
+        secs = [(i, o) for i, o in enumerate(ops) if 'id' in o and 'country' in o and o['op'] not in ('Country', 'Region', 'GetSector')]
+        ctrs = [(i, o) for i, o in enumerate(ops) if o['op'] in ('Country', 'Region')]
+        if not secs or not ctrs:
+            return
+        what = rng.choice(['SectorVariables', 'SectorVariables', 'BlockEquationList', 'ModelSectors', 'ZoneSectors',
+                           'ZoneSectors', 'ZoneLookup', 'CountryLookup', 'HasVariable'])
+        q = {'op': 'Query', 'what': what, 'model': m}
+        if what in ('SectorVariables', 'BlockEquationList', 'HasVariable'):
+            i, o = rng.choice(secs)
+            q['sector'] = o['id']
+            q['code'] = rng.choice(['F', 'LAG_F', 'INC', 'DEM_GOOD', 'NOPE'])
+        else:
+            i, o = rng.choice(ctrs)
+            q['country'] = o['id']
+            q['code'] = rng.choice([x.get('code') or 'HH' for _, x in secs])
+        if what in ('SectorVariables', 'BlockEquationList', 'ModelSectors', 'ZoneSectors'):
+            q['then'] = rng.choice([None, 'clear', 'pop', 'pop', 'reverse', 'append'])
+            q['index'] = rng.randint(0, 7)
+        last = len(ops)
+        mains = [j for j, x in enumerate(ops) if x['op'] == 'main']
+        if mains:
+            last = mains[0]
+        if i + 1 > last:
+            continue
+        ops.insert(rng.randint(i + 1, last), q)
+
+
 def gen_program(seed, family=None, tight=True, T=None, on_grid=True, with_main=True, names=None, cmap=None,
                 hh_variant=None):
     """Returns (ops, info). info: {'family', 'T', 'model': handle, 'economies': [handles dict]}"""
@@ -443,6 +474,8 @@ def gen_program(seed, family=None, tight=True, T=None, on_grid=True, with_main=T
         first_sector = [i for i, o in enumerate(b.ops) if o['op'] in ('Household', 'HouseholdWithExpectations')]
         if first_sector:
             b.ops.insert(S['swarm'].randint(first_sector[0] + 1, len(b.ops)), {'op': 'LogInfo', 'model': m})
+    if S['swarm'].random() < 0.15:
+        insert_queries(b.ops, S['swarm'], m)
     knobs_ops(b, S['knobs'], m, T, tight=tight)
     if with_main:
         mo = {'op': 'main', 'model': m}
